@@ -52,7 +52,12 @@ pub fn run_random(ctx: &Ctx, prop: &'static str, salt: u64, n: u64, opts: &GenOp
 
 pub fn check_one(set: &ModuleSet, prop: &'static str, origin: &str, shrunk: &Mutex<std::collections::BTreeSet<String>>, rep: &mut Report) {
     let cfg = Cfg::default_cfg();
+    let t0 = std::time::Instant::now();
     let j = judge(set, &cfg);
+    if t0.elapsed().as_secs() >= 3 {
+        eprintln!("SLOW-CASE {origin}: {:.1}s", t0.elapsed().as_secs_f64());
+        rep.count("slow_compilations(>3s)", 1);
+    }
     rep.evaluations += 1;
     rep.count(&format!("compilations[{}]", j.status.split(':').next().unwrap_or("")), 1);
     if j.status != "Ok" {
